@@ -34,13 +34,7 @@ Print Assumptions C09_accessor_iff_create.
 Theorem C09_facility_members_initialised_in_dependency_order : forall o,
   forall m deps, In (m, deps) (initialiser_deps o [] []) ->
   forall d, In d deps -> exists i j, index_of d (declared_members o [] []) = Some i /\ index_of m (declared_members o [] []) = Some j /\ (i < j)%nat.
-Proof.
-  intros [|] m deps Hin d Hd; cbn in Hin.
-  - destruct Hin as [E|[E|[]]]; inversion E; subst; destruct Hd.
-  - destruct Hin as [E|[E|[]]]; inversion E; subst.
-    + destruct Hd as [<-|[<-|[]]]; [exists 0%nat, 2%nat|exists 1%nat, 2%nat]; repeat split; auto with arith.
-    + destruct Hd as [<-|[]]. exists 2%nat, 3%nat. repeat split; auto with arith.
-Qed.
+Proof. exact facility_members_in_dependency_order. Qed.
 Print Assumptions C09_facility_members_initialised_in_dependency_order.
 
 Example demo_locators :
